@@ -104,6 +104,34 @@ func runCase(t *testing.T, c *Case, sch scheduler, maxMoves int, drain bool, emi
 		if c.Stage.Kind == "seq" {
 			c.Inputs = nil
 		}
+		// pipe.StdErr reads a channel of errors: the driver's input 0 is that channel (0 stands for a nil error)
+		sendIn := func(i, x int) bool {
+			if c.Stage.exx != nil {
+				var e error
+				if x != 0 {
+					e = errVal(x)
+				}
+				select {
+				case c.Stage.exx <- e:
+					return true
+				default:
+					return false
+				}
+			}
+			select {
+			case ins[i] <- x:
+				return true
+			default:
+				return false
+			}
+		}
+		closeIn := func(i int) {
+			if c.Stage.exx != nil {
+				close(c.Stage.exx)
+				return
+			}
+			close(ins[i])
+		}
 		synctest.Wait()
 
 		do := func(in intent) {
@@ -112,15 +140,14 @@ func runCase(t *testing.T, c *Case, sch scheduler, maxMoves int, drain bool, emi
 			case "send":
 				x := st.inputs[in.i][st.pos[in.i]]
 				mv = Move{M: "send", I: in.i, X: x}
-				select {
-				case ins[in.i] <- x:
+				if sendIn(in.i, x) {
 					mv.O = "done"
 					st.pos[in.i]++
-				default:
+				} else {
 					mv.O = "blocked"
 				}
 			case "close":
-				close(ins[in.i])
+				closeIn(in.i)
 				st.closedIn[in.i] = true
 				mv = Move{M: "close", I: in.i, O: "done"}
 			case "recv":
@@ -198,6 +225,11 @@ func runCase(t *testing.T, c *Case, sch scheduler, maxMoves int, drain bool, emi
 				for k := 0; k < st.nouts; k++ {
 					done = done && st.closedOut[k]
 				}
+				if st.nouts == 0 {
+					for i := range ins {
+						done = done && st.closedIn[i]
+					}
+				}
 				if done {
 					break
 				}
@@ -248,7 +280,7 @@ func runCase(t *testing.T, c *Case, sch scheduler, maxMoves int, drain bool, emi
 		}
 		for i := range ins {
 			if !st.closedIn[i] {
-				close(ins[i])
+				closeIn(i)
 			}
 		}
 		for k := 0; k < st.nouts; k++ {
